@@ -130,6 +130,6 @@ Verdict evalProp(Ctx& c) {
 
 int main(int argc, char** argv) {
   std::vector<pbt::Prop> props;
-  props.push_back({"evaluate", evalProp, 2500, 40000, false, false, "type-directed expressions x contexts x data; 2-4 renderings each"});
+  props.push_back({"evaluate", evalProp, 3000, 40000, false, false, "type-directed expressions x contexts x data; 2-4 renderings each"});
   return pbt::main(argc, argv, "C01", props);
 }
